@@ -1348,6 +1348,16 @@ def check_harness_spec(ctx, vcfg, dumps_list, names=None):
                 ctx.disagree('route=v4;symptom=harness_seen_differs_from_model', vcfg, mine, mo,
                              'solutions seen by dumps [%d, %d): harness derivation differs from Model/Applycal.v seen'
                              % (a, b), kind='tie')
+            if t not in GAIN_TYPES and st:
+                # the solution in force at every loaded dump (Model/ApplycalSol.v in_force o seen)
+                ids = [[e, k] for k, (e, _) in enumerate(st)]
+                mos = ctx.model([[131, [5, a, b, d, ids]] for d in range(b - a)])
+                kept = _kept_events(ids, (a, b))
+                mine_f = [([_in_force(kept, d, True)] if kept else []) for d in range(b - a)]
+                if mos != mine_f:
+                    ctx.disagree('route=v4;symptom=harness_in_force_differs_from_model', vcfg, mine_f, mos,
+                                 'solution in force at the dumps of [%d, %d): harness derivation differs from '
+                                 'Model/ApplycalSol.v in_force' % (a, b), kind='tie')
         n_parts = cal.get('parts', {}).get(t)
         if not n_parts:
             continue
